@@ -39,7 +39,8 @@ from ..engine.resolver import Program, contains_await
 from ..engine.util import find_calls, method_call, nodes_with_call, u
 from ._c06_util import (Flow, Org, Tri, cmp_eval, first_run_sync_name, indent_of, inline_all, lifted, names_eq, pruned, result_sites, seg, spliced, src_patch, stmt_patch,
                         transitive_helpers, tri, truth_atom, unawait)
-from .c13 import check_steps, engine_drops_round, step_classes
+from .c13 import check_fetcher, check_steps, engine_drops_round, step_classes
+from .c19 import check_plain_primary
 from .c19 import check_sync as fallback_sync
 
 EVAL = "timeseries.formula_engine._formula_evaluator"
@@ -73,6 +74,14 @@ def _is_sync_call(c: ast.Call) -> bool:
     return isinstance(c.func, ast.Attribute) and c.func.attr == SYNC and u(c.func.value) == "self"
 
 
+class RoundBroken(AnalysisError):
+    """apply() lacks a part every round needs (reported as a violation, not as an analysis failure)."""
+
+    def __init__(self, rule: str, what: str, message: str) -> None:
+        super().__init__(message)
+        self.rule, self.what, self.message = rule, what, message
+
+
 class Round:
     """Roles of FormulaEvaluator.apply: the awaited asyncio.wait, its done / pending sets, the step evaluation."""
 
@@ -84,6 +93,9 @@ class Round:
         self.fl = fl = Flow(prog, self.fn)
         waits = [(nid, c) for nid, c in fl.calls(lambda c: _asyncio_name(fl, c.func, "wait"))
                  if isinstance(fl._parent.get(id(c)), ast.Await)]
+        if not waits:
+            raise RoundBroken("C06.ALL", "await asyncio.wait(<one fetch task per input>)",
+                              "apply() does not wait for this round's fetch tasks at all")
         if len(waits) != 1:
             raise AnalysisError(f"{self.raw.qual}: expected one awaited asyncio.wait, found {len(waits)}")
         self.wait_nid, self.wait = waits[0]
@@ -93,8 +105,9 @@ class Round:
         self.step_calls = [(nid, c) for nid, c in fl.calls(lambda c: isinstance(c.func, ast.Attribute) and c.func.attr == "apply")
                            if any(o.kind == "iter" and self._is_steps(o.node, o.nid, strict=False) for o in fl.origin(c.func.value, nid))]  # type: ignore[union-attr]
         self.eval_nodes = sorted(set(self.step_loops) | {nid for nid, _ in self.step_calls})
-        if not self.eval_nodes:
-            raise AnalysisError(f"{self.raw.qual}: evaluation of self._steps not found")
+        if not self.step_calls:
+            raise RoundBroken("C06.TS", "evaluation of self._steps", "apply() never applies the formula steps to the inputs it "
+                              "fetched (no value is computed from this round's samples; the residual check drops every round)")
 
     def _is_steps(self, e: ast.AST | None, nid: int | None, strict: bool = True) -> bool:
         if e is None:
@@ -209,6 +222,11 @@ class Round:
                                 return v
                             if u(e.func) == "all" and not is_none:
                                 return None if v is None else (not v)
+                            # the done set of a round is never empty (one task per input)
+                            if u(e.func) == "any" and not is_none and v is False:
+                                return True
+                            if u(e.func) == "all" and is_none and v is False:
+                                return False
                 return None
             if isinstance(e, ast.Call) and len(e.args) + len(e.keywords) == 1 and fl.callee(e) is not None \
                     and self.is_done(fl, (list(e.args) + [k.value for k in e.keywords])[0], nid) and self.none_scan(fl, e, nid):
@@ -426,6 +444,62 @@ def check_one(run: Run, prog: Program) -> None:
     run.check("_next_value" in reads and "_stream" not in reads, "C06.ONE", ap.qual,
               "MetricFetcher.apply pushes the value fetched for this round",
               "MetricFetcher.apply does not push the sample stored by fetch_next", node=ap.node, file=ap.file)
+
+
+def check_emit(run: Run, prog: Program, rnd: Round, rule: str = "C06.EMIT") -> None:
+    """C06.EMIT: no timestamp is skipped by apply() itself -- when every input delivered a sample and the
+    evaluation left its single value, apply() returns normally (first run: through the synchronisation;
+    afterwards: directly); and what apply() asserts about a delivered sample is not its opposite."""
+    fn, fl, cfg = rnd.raw, rnd.fl, rnd.fl.cfg
+    stacks = [c.args[0] for _n, c in rnd.step_calls if c.args]
+
+    def is_stack(e: ast.AST, nid: int) -> bool:
+        o = fl.origin(e, nid)
+        return bool(stacks) and bool(o) and any(names_eq(o, fl.origin(s_, fl.node_of(s_))) for s_ in stacks)
+
+    def scene(first_run: bool) -> Callable[[ast.AST, int], Tri]:
+        arrived = rnd.arrived_atom({"pending": False, "none": False})
+        first = rnd.first_run_atom(fl, first_run)
+
+        def val(e: ast.AST, nid: int) -> int | None:
+            if isinstance(e, ast.Constant) and isinstance(e.value, int) and not isinstance(e.value, bool):
+                return e.value
+            if isinstance(e, ast.Call) and u(e.func) == "len" and len(e.args) == 1 and is_stack(e.args[0], nid):
+                return 1
+            if isinstance(e, ast.Name):
+                o = fl.origin1(e, nid)
+                if o is not None and o.kind == "expr" and o.node is not None and o.nid is not None and not isinstance(o.node, ast.Name):
+                    return val(o.node, o.nid)
+            return None
+
+        def atom(e: ast.AST, nid: int) -> Tri:
+            for a in (arrived, first):
+                v = a(e, nid)
+                if v is not None:
+                    return v
+            if isinstance(e, ast.Compare) and len(e.ops) == 1:
+                a1, b1 = val(e.left, nid), val(e.comparators[0], nid)
+                if a1 is not None and b1 is not None:
+                    return cmp_eval(e.ops[0], a1, b1)
+            ta = truth_atom(e)
+            if ta is not None and rnd.is_sample(fl, ta[0], nid):
+                return not ta[1]  # every task delivered a sample
+            return None
+        return lifted(fl, atom)
+
+    start = [m for m, lab in cfg.succ[rnd.wait_nid] if not lab.startswith("exc:")]
+    stuck = [fr for fr in (True, False) if not any(
+        cfg.path(s_, [cfg.exit], edge_ok=pruned(cfg, scene(fr))) is not None for s_ in start)]
+    run.check(not stuck, rule, fn.qual, "a complete round returns its sample",
+              "with every input delivered and a well-formed evaluation (one residual value) apply() cannot return normally"
+              + (f" ({'first run' if stuck and stuck[0] else 'steady state'})" if stuck else "")
+              + ": the round is dropped by FormulaEngine._run and its timestamp is skipped", node=fn.node, file=fn.file)
+    at = scene(False)
+    bad = [n for n in cfg.nodes if n.id in fl.live and isinstance(n.ast, ast.Assert)
+           and tri(n.ast.test, lambda e, n=n: at(e, n.id)) is False]
+    run.check(not bad, rule, fn.qual, "assertions about delivered samples hold",
+              "apply() asserts that a delivered sample is missing: every round raises and is dropped",
+              node=(bad[0].ast if bad else fn.node), file=fn.file)
 
 
 def _is_sample_ctor(c: ast.Call) -> bool:
@@ -701,6 +775,13 @@ def check_sync(run: Run, prog: Program, rule: str = "C06.SYNC") -> None:
         # every task is grouped: no normal way round the loop body that skips the insertion
         ok = bool(first) and first[0] != lp and (first[0] == ins or cfg.path(first[0], [lp], avoid=[ins], edge_ok=normal) is None) \
             and not any(isinstance(x, (ast.Break, ast.Return)) for st in cfg.nodes[lp].ast.body for x in ast.walk(st))  # type: ignore[union-attr]
+        # ... and with a delivered sample (apply() only gets here when every task has one) it IS grouped
+        def delivered(e: ast.AST, nid: int) -> Tri:
+            ta = truth_atom(e)
+            if ta is not None and task_call(ta[0], nid, "result")[0]:
+                return not ta[1]
+            return None
+        ok = ok and cfg.path(first[0], [ins], edge_ok=pruned(cfg, lifted(fl, delivered))) is not None
         latest_calls = [c for nid, c in fl.calls(lambda c: u(c.func) == "max" and len(c.args) == 1 and not c.keywords)
                         if is_G(c.args[0], nid)]
         # the grouping is complete before the latest timestamp is taken
@@ -862,6 +943,22 @@ def check_sync(run: Run, prog: Program, rule: str = "C06.SYNC") -> None:
                     gt = pruned(cfg, lifted(fl, rel_atom("gt")))
                     ok = bool(wfalse) and all(m != o_id and cfg.path(m, [o_id, cfg.exit], edge_ok=gt) is None for m in wfalse)
                     detail = "overshooting the target timestamp is not an error"
+                if ok:
+                    # ... and a group that has just been brought up to the latest timestamp is done: the next group follows
+                    eq2 = pruned(cfg, lifted(fl, rel_atom("eq")))
+                    ok = all(m == o_id or cfg.path(m, [o_id], edge_ok=eq2) is not None for m in wfalse)
+                    detail = "a group that reached the latest timestamp exactly is treated as an error (the synchronisation can never succeed)"
+                if ok:
+                    # a fetched sample is present while the inputs deliver: an assertion about it must not say the opposite
+                    def present(e: ast.AST, nid: int) -> Tri:
+                        ta = truth_atom(e)
+                        if ta is not None and fl.is_node_any(ta[0], fetched, nid):
+                            return not ta[1]
+                        return None
+                    bad_asserts = [n for n in region_f if isinstance(cfg.nodes[n].ast, ast.Assert)
+                                   and tri(cfg.nodes[n].ast.test, lambda e, n=n: lifted(fl, present)(e, n)) is False]  # type: ignore[union-attr]
+                    ok = not bad_asserts
+                    detail = "the drain pass asserts that the sample it just fetched is missing"
     run.check(ok, rule, raw.qual, "while ts < latest: for name in names: fetch_next()", detail,
               node=raw.node, file=raw.file)
     # ---- S3: _first_run cleared only after the group loop completed normally
@@ -1071,6 +1168,38 @@ def build_controls(prog: Program) -> list[tuple[str, str, str, str, str]]:
         add("phase 2 read twice", ENGINE, stmt_patch(ph, a, lambda t, ta=ta, tb=tb: t.replace(f"{ta}.receive", f"{tb}.receive", 1)), "C06.3PH")
     # SYNC (shared with C05.ALIGN): the drain loops interchanged
     add("drain loops interchanged", EVAL, interchange_patch(prog), "C06.SYNC")
+    # EMIT: the residual test inverted (every well-formed round raises)
+    for m in ev.methods.values():
+        hit = next((c for c in ast.walk(m.node) if isinstance(c, ast.Compare) and len(c.ops) == 1 and isinstance(c.ops[0], (ast.NotEq, ast.Eq))
+                    and any(isinstance(x, ast.Call) and u(x.func) == "len" for x in (c.left, c.comparators[0]))
+                    and any(isinstance(x, ast.Constant) and x.value == 1 for x in (c.left, c.comparators[0]))), None)
+        if hit is not None:
+            l, r = seg(m.module, hit.left), seg(m.module, hit.comparators[0])
+            sym = "==" if isinstance(hit.ops[0], ast.NotEq) else "!="
+            add("residual test inverted", EVAL, stmt_patch(m, hit, lambda t, hit=hit, l=l, r=r, sym=sym, m=m: t.replace(seg(m.module, hit), f"{l} {sym} {r}", 1)), "C06.EMIT")
+            break
+    # SYNC: reaching the latest timestamp exactly is made an error (`>` -> `>=` in the overshoot guard)
+    for m in ev.methods.values():
+        hit2 = next((i for i in ast.walk(m.node) if isinstance(i, ast.If) and isinstance(i.test, ast.Compare) and len(i.test.ops) == 1
+                     and isinstance(i.test.ops[0], (ast.Gt, ast.Lt)) and any(isinstance(b, ast.Raise) for b in i.body)
+                     and "timestamp" not in u(i.test) and not any(isinstance(x, ast.Call) for x in ast.walk(i.test))), None)
+        if hit2 is not None:
+            c = hit2.test
+            l, r = seg(m.module, c.left), seg(m.module, c.comparators[0])  # type: ignore[attr-defined]
+            sym = ">=" if isinstance(c.ops[0], ast.Gt) else "<="  # type: ignore[attr-defined]
+            add("aligned group raises", EVAL, src_patch(m.module, hit2.lineno, c.end_lineno or hit2.lineno,
+                                                      lambda t, c=c, l=l, r=r, sym=sym, m=m: t.replace(seg(m.module, c), f"{l} {sym} {r}", 1)), "C06.SYNC")
+            break
+    # TOTAL: evaluated samples are not sent; a step that forgets to push its result
+    rn = prog.func(f"{ENGINE}:FormulaEngine._run")
+    for st_ in (x for x in ast.walk(rn.node) if isinstance(x, ast.Expr) and isinstance(x.value, ast.Await)
+                and isinstance(x.value.value, ast.Call) and method_call(x.value.value, None, "send")):
+        add("evaluated sample not sent", ENGINE, stmt_patch(rn, st_, lambda t: f"{indent_of(t)}pass\n"), "C06.TOTAL")
+        break
+    ad = prog.func(f"{STEPS}:Adder.apply")
+    for st_ in (x for x in ast.walk(ad.node) if isinstance(x, ast.Expr) and isinstance(x.value, ast.Call) and method_call(x.value, None, "append")):
+        add("Adder does not push its result", STEPS, stmt_patch(ad, st_, lambda t: f"{indent_of(t)}pass\n"), "C06.TOTAL")
+        break
     # TOTAL: Divider without its zero-divisor arm
     dv = prog.func(f"{STEPS}:Divider.apply")
     for x in (x for x in ast.walk(dv.node) if isinstance(x, ast.IfExp) and isinstance(x.orelse, ast.BinOp) and isinstance(x.orelse.op, ast.Div)):
@@ -1078,21 +1207,33 @@ def build_controls(prog: Program) -> list[tuple[str, str, str, str, str]]:
         add("Divider raises on a zero divisor", STEPS, stmt_patch(dv, x, lambda t, txt=txt, keep=keep: t.replace(txt, keep, 1)), "C06.TOTAL")
         break
     if len(out) < 6:
-        raise AnalysisError(f"C06: only {len(out)} of 9 seeded controls could be derived from the source ({[o[0] for o in out]})")
+        raise AnalysisError(f"C06: only {len(out)} of 13 seeded controls could be derived from the source ({[o[0] for o in out]})")
     return out
 
 
 def run_rules(run: Run, prog: Program) -> None:
     bind_sync(prog)
-    rnd = Round(prog)
-    check_all(run, prog, rnd)
+    try:
+        rnd: Round | None = Round(prog)
+    except RoundBroken as exc:
+        rnd = None
+        raw = prog.func(f"{FE}.apply")
+        run.analysed(raw.qual)
+        run.violation(exc.rule, raw.qual, exc.what, exc.message, node=raw.node, file=raw.file)
+    if rnd is not None:
+        check_all(run, prog, rnd)
+        check_ts(run, prog, rnd)
+        check_emit(run, prog, rnd)
     check_one(run, prog)
-    check_ts(run, prog, rnd)
+    check_plain_primary(run, prog, "C06.ONE")
     check_sync(run, prog)
     fallback_sync(run, prog, rule="C06.FSYNC")
     check_3ph(run, prog)
-    # no timestamp is skipped: a step that raises makes FormulaEngine._run drop the whole round
-    check_steps(run, prog, engine_drops_round(run, prog, rule=None), total_rule="C06.TOTAL", only_total=True)
+    # no timestamp is skipped: a step that raises (or leaves the stack malformed) makes FormulaEngine._run drop the
+    # whole round; and every sample apply() returns is sent
+    drops = engine_drops_round(run, prog, rule="C06.TOTAL")
+    check_steps(run, prog, drops, total_rule="C06.TOTAL", only_total=True)
+    check_fetcher(run, prog, rule="C06.TOTAL", only_total=True)
 
 
 def check(run: Run, prog: Program, tier: str) -> str:
@@ -1102,6 +1243,8 @@ def check(run: Run, prog: Program, tier: str) -> str:
     run.rule("C06.SYNC", "first-run synchronisation drains every stream of every lagging group up to the latest first timestamp")
     run.rule("C06.FSYNC", "fallback synchronisation keeps per-timestamp alignment")
     run.rule("C06.3PH", "three-phase zip: one sample per phase per round, stamped with a received timestamp")
+    run.rule("C06.EMIT", "a complete round (all inputs delivered, one residual value) makes apply() return its sample; "
+             "assertions about delivered samples hold")
     run.rule("C06.TOTAL", "no abstract path of a step's apply() raises: FormulaEngine._run drops the round on any exception, "
              "after one sample was consumed from every input, i.e. the timestamp is skipped (shared with C13.TOTAL)")
     run_rules(run, prog)
@@ -1111,6 +1254,7 @@ def check(run: Run, prog: Program, tier: str) -> str:
     run.floor("C06.SYNC", 4)
     run.floor("C06.3PH", 5)
     run.floor("C06.TOTAL", 20)
+    run.floor("C06.EMIT", 2)
     from ..engine.controls import run_controls
 
     run_controls(run, [] if run.violations else build_controls(prog), run_rules, tier)
